@@ -255,7 +255,7 @@ func (d *driver) runFetchScenario(idx int, sc Scenario, raw json.RawMessage) ([]
 		if err != nil {
 			return nil, err
 		}
-		evs = append(evs, tr.E{"ev": "run", "id": sid, "seq": seq, "force": step == "force", "healthy": len(f) == 0, "origin": pairsOf(org), "keepdigs": true})
+		evs = append(evs, tr.E{"ev": "run", "id": sid, "seq": seq, "force": step == "force", "healthy": len(f) == 0, "origin": pairsOf(org)})
 		mt := 0
 		if seq == 1 {
 			mt = maxTime
